@@ -459,3 +459,98 @@ Proof.
     destruct (nzhead u) eqn:En; try discriminate Hfix.
     eapply nzhead_not_D0. exact En.
 Qed.
+
+(* ------------------------------------------------------------------ *)
+(* positional notation: general facts used by the timestamp and decimal lemmas *)
+
+Lemma dec_value_app : forall a b n, dec_value (a ++ b) n = dec_value b (dec_value a n).
+Proof. induction a as [|c r IH]; intros b n; [reflexivity|]. cbn [app dec_value]. apply IH. Qed.
+
+Lemma dec_value_shift : forall s n, dec_value s n = n * 10 ^ Z.of_nat (length s) + dec_value s 0.
+Proof.
+  induction s as [|c r IH]; intros n.
+  - cbn [dec_value length]. change (10 ^ Z.of_nat 0) with 1. lia.
+  - cbn [dec_value length]. rewrite (IH (n * 10 + (c - CH0))), (IH (0 * 10 + (c - CH0))).
+    rewrite Nat2Z.inj_succ, Z.pow_succ_r by lia. ring.
+Qed.
+
+Lemma all_digits_app : forall a b, all_digits (a ++ b) = all_digits a && all_digits b.
+Proof. intros a b. unfold all_digits. apply forallb_app. Qed.
+
+Lemma all_digits_repeat0 : forall k, all_digits (repeat CH0 k) = true.
+Proof. induction k as [|k IH]; [reflexivity|]. cbn [repeat all_digits forallb]. exact IH. Qed.
+
+Lemma dec_value_repeat0 : forall k n, dec_value (repeat CH0 k) n = n * 10 ^ Z.of_nat k.
+Proof.
+  induction k as [|k IH]; intros n.
+  - cbn [repeat dec_value]. change (10 ^ Z.of_nat 0) with 1. lia.
+  - cbn [repeat dec_value]. rewrite IH. rewrite Nat2Z.inj_succ, Z.pow_succ_r by lia. unfold CH0. ring.
+Qed.
+
+(* two digit strings of the same length with the same value are equal *)
+Lemma dec_value_inj : forall a b n m, all_digits a = true -> all_digits b = true -> length a = length b ->
+  dec_value a n = dec_value b m -> n = m /\ a = b.
+Proof.
+  induction a as [|c r IH]; intros [|c' r'] n m Ha Hb Hl Hv; try discriminate.
+  - cbn in Hv. split; [exact Hv | reflexivity].
+  - cbn [all_digits forallb] in Ha, Hb.
+    apply andb_true_iff in Ha as [Hc Hr]. apply andb_true_iff in Hb as [Hc' Hr'].
+    cbn [dec_value] in Hv. cbn [length] in Hl.
+    destruct (IH r' _ _ Hr Hr' ltac:(lia) Hv) as [E1 E2].
+    apply is_digit_range in Hc. apply is_digit_range in Hc'.
+    split; [lia|]. f_equal; [lia | exact E2].
+Qed.
+
+Lemma dec_value_lower : forall c r, all_digits (c :: r) = true -> (c =? CH0) = false ->
+  10 ^ Z.of_nat (length r) <= dec_value (c :: r) 0.
+Proof.
+  intros c r Hd H0. cbn [all_digits forallb] in Hd. apply andb_true_iff in Hd as [Hc Hr].
+  cbn [dec_value]. pose proof (dec_value_bounds r (0 * 10 + (c - CH0)) Hr) as Hb.
+  apply is_digit_range in Hc.
+  assert (Hp : 0 < 10 ^ Z.of_nat (length r)) by (apply Z.pow_pos_nonneg; lia).
+  specialize (Hb ltac:(lia)). nia.
+Qed.
+
+(* width of strconv.AppendInt's output *)
+Lemma itoa_length_bound : forall x w, 0 <= x < 10 ^ Z.of_nat w -> (1 <= w)%nat -> (length (itoa x) <= w)%nat.
+Proof.
+  intros x w Hx Hw.
+  pose proof (itoa_is_canonical x) as Hc. pose proof (int_value_itoa x) as Hv.
+  pose proof (itoa_all_digits_nonneg x ltac:(lia)) as Hd.
+  destruct (itoa x) as [|c r] eqn:E; [cbn; lia|].
+  cbn [canonical_int] in Hc. rewrite (digits_head_not_minus c r Hd) in Hc.
+  cbn [int_value] in Hv. rewrite (digits_head_not_minus c r Hd) in Hv.
+  apply andb_true_iff in Hc as [_ Hc].
+  destruct (c =? CH0) eqn:E0.
+  - cbn [negb orb] in Hc. apply Nat.eqb_eq in Hc. cbn [length]. lia.
+  - pose proof (dec_value_lower c r Hd E0) as Hl. rewrite Hv in Hl.
+    assert (Hlt : 10 ^ Z.of_nat (length r) < 10 ^ Z.of_nat w) by lia.
+    apply Z.pow_lt_mono_r_iff in Hlt; [|lia|lia]. cbn [length]. lia.
+Qed.
+
+(* a zero-padded decimal field of width w: length, digits, value *)
+Lemma pad_zeros_itoa_field : forall x w, 0 <= x < 10 ^ Z.of_nat w -> (1 <= w)%nat ->
+  length (pad_zeros w (itoa x)) = w /\ all_digits (pad_zeros w (itoa x)) = true
+  /\ dec_value (pad_zeros w (itoa x)) 0 = x.
+Proof.
+  intros x w Hx Hw. pose proof (itoa_length_bound x w Hx Hw) as Hl.
+  pose proof (itoa_all_digits_nonneg x ltac:(lia)) as Hd.
+  unfold pad_zeros. split; [|split].
+  - rewrite app_length, repeat_length. lia.
+  - rewrite all_digits_app, all_digits_repeat0, Hd. reflexivity.
+  - rewrite dec_value_app, dec_value_repeat0. rewrite Z.mul_0_l.
+    pose proof (int_value_itoa x) as Hv.
+    destruct (itoa x) as [|c r] eqn:E; [exfalso; eapply itoa_nonempty; exact E|].
+    cbn [int_value] in Hv. rewrite (digits_head_not_minus c r Hd) in Hv. exact Hv.
+Qed.
+
+(* conversely the field of a value is the only digit string of that width with that value *)
+Lemma pad_zeros_itoa_unique : forall s, all_digits s = true -> s <> [] ->
+  pad_zeros (length s) (itoa (dec_value s 0)) = s.
+Proof.
+  intros s Hd Hne.
+  pose proof (dec_value_bounds s 0 Hd ltac:(lia)) as Hb.
+  assert (Hw : (1 <= length s)%nat) by (destruct s; [congruence | cbn; lia]).
+  destruct (pad_zeros_itoa_field (dec_value s 0) (length s) ltac:(lia) Hw) as (Hl & Hdig & Hv).
+  apply (dec_value_inj _ s 0 0 Hdig Hd Hl Hv).
+Qed.
